@@ -17,7 +17,7 @@ CLAIMS = {
             "Lean proof (T2 completeness, termination) + correspondence + leak oracle"),
     "C03": ("Step-level theorems on every release site (one free event, value marked dead before fields are released, free after drop, new_cyclic guard emits no drop). History-level 'at most once' (I8) not yet an inductive theorem: decided per run by allocator oracle (double free, layout mismatch, callback on dead value) and correspondence of ordered drop/free events.",
             "Lean step theorems + correspondence + allocator oracle"),
-    "C04": ("Step-level theorems for clone/drop on the count (exactly +1/-1, last owner destroys in the same step whether buffered or not, listed objects only decremented). Global exactness I1 not yet proved: decided per run by the harness count oracle (enumerates every Cc) and correspondence of strong_count after every op.",
+    "C04": ("Global invariant proved for every reachable world of the machine (any programs, callbacks, collections, injected panics, unwinding): the count of every live box is >= the number of Cc pointers to it that exist (count_never_too_low, by induction over all operations, frame steps and unwinding steps); a box with count 0 has no pointer to it. Step-level theorems for clone/drop on the count (exactly +1/-1, last owner destroys in the same step whether buffered or not, listed objects only decremented). The upper half (count not above the pointers in panic-free histories) is not yet proved: decided per run by the harness count oracle (enumerates every Cc) and correspondence of strong_count after every op.",
             "Lean step theorems + correspondence + count oracle"),
     "C05": ("Step-level theorems: finalized flag set before the call, pass skips finalized members, a pass that finalized re-buffers and drops nothing, objects created while finalizing are born finalized, no finalizer frames without the feature. 'Only on garbage' is C01's T1. Ordering over whole histories checked per run (ordered F/D events, neighbour-canary oracle inside finalizers).",
             "Lean step theorems + T1 + correspondence + finalizer oracle"),
